@@ -35,7 +35,7 @@ def stub_bounds(sc):
     for s in sc["sessions"]:
         r = sub(sc["seed"], "stubbound", s["session_id"])
         if r.random() < 0.8:
-            out[s["session_id"]] = r.choice([6, 8, 10, 12, 16, 20, round(r.uniform(1, 30), 2)])
+            out[s["session_id"]] = r.choice([0, 6, 8, 10, 12, 16, 20, round(r.uniform(1, 30), 2)])
     return out
 
 
